@@ -29,7 +29,34 @@ def use_repo():
     return ZConfig
 
 
+def _stub_z3():
+    """The replay runs under the repository's own interpreter (/venv), which has no z3: the
+    contract files only DECLARE types at import time, so a permissive stand-in module is enough
+    (nothing symbolic is evaluated in a replay)."""
+    try:
+        import z3  # noqa: F401
+        return
+    except ImportError:
+        pass
+    import types
+
+    class _Any:
+        def __call__(self, *a, **k):
+            return _Any()
+
+        def __getattr__(self, n):
+            return _Any()
+
+    class _Stub(types.ModuleType):
+        def __getattr__(self, n):
+            if n.startswith('__'):
+                raise AttributeError(n)
+            return _Any()
+    sys.modules['z3'] = _Stub('z3')
+
+
 def load_contracts():
+    _stub_z3()
     from pyvc import api
     import contracts.props as P
     for m in P.CONTRACT_MODULES:
